@@ -117,6 +117,9 @@ def checkFnTypes (m : Module) (f : Fn) (recorded : List Sexp) : List String :=
           -- a pointer-typed expression (variables, access chains on pointers) is recorded as a pointer: skip
           let errs := if inf != .unknown && rec_ != .unknown && inf != rec_ then
               errs ++ [s!"fn {f.name}: expression {i}: recorded type {showSh rec_} but inferred {showSh inf}"] else errs
+          -- an evaluated value expression whose entry in ExpressionTypes is empty (neither handle nor value)
+          let errs := if inf != .unknown && (match recorded[i]? with | some (.atom "nil") => true | _ => false) then
+              errs ++ [s!"fn {f.name}: expression {i}: no recorded type (inferred {showSh inf})"] else errs
           go (i + 1) fuel (prev.push (if inf != .unknown then inf else rec_)) errs
     go 0 (n + 1) #[] []
 
@@ -194,19 +197,53 @@ def checkFnStmtTypes (m : Module) (f : Fn) (recorded : List Sexp) : List String 
   if recorded.length != f.exprs.size then [] else
   (blockTypeErrs m f recorded.toArray f.body).map (fun e => s!"fn {f.name}: {e}")
 
+/-- coarse name of a recorded type (for diagnostics that say where an abstract literal is used) -/
+def recordedKindName (types : Array Ty) : Sexp → String
+  | .list [.atom "h", n] =>
+    (match n.nat? with
+     | some t => (match types[t]? with
+        | some (.scalar ..) => "scalar" | some (.vector ..) => "vector" | some (.matrix ..) => "matrix"
+        | some (.array ..) => "array" | some (.pointer ..) => "pointer" | some _ => "other" | none => "?")
+     | none => "?")
+  | .list [.atom "v", inner] =>
+    (match IR.parseTy inner with
+     | some (.scalar ..) => "scalar" | some (.vector ..) => "vector" | some (.matrix ..) => "matrix"
+     | some (.pointer ..) => "pointer" | some _ => "other" | none => "?")
+  | _ => "?"
+
+def binOpName (op : Sem.BinOp) : String := (toString (repr op)).replace "Naga.Sem.BinOp." ""
+
+/-- how expression `i` is first used by a later expression of the arena -/
+def useOf (types : Array Ty) (es : Array Expr) (recorded : Array Sexp) (i : Nat) : String :=
+  let ty (h : Nat) : String := match recorded[h]? with | some r => recordedKindName types r | none => "?"
+  let descr : Expr → Option String
+    | .binary op l r => if l == i then some s!"left operand of binary {binOpName op}, other operand: {ty r}"
+                        else if r == i then some s!"right operand of binary {binOpName op}, other operand: {ty l}" else none
+    | .as h _ conv => if h == i then some (if conv.isSome then "operand of a conversion" else "operand of a bitcast") else none
+    | .compose _ hs => if hs.contains i then some "component of a constructor" else none
+    | .splat _ h => if h == i then some "operand of a splat" else none
+    | .unary _ h => if h == i then some "operand of a unary operator" else none
+    | .select c a r => if c == i || a == i || r == i then some "operand of select" else none
+    | .math f args => if args.contains i then some s!"argument of {f}" else none
+    | .access _ ix => if ix == i then some "index" else none
+    | _ => none
+  match es.toList.findSome? descr with
+  | some d => d
+  | none => "not used by another expression"
+
 /-- No abstract-numeric type or literal survives lowering. -/
-def abstractSurvivors (m : Module) : List String :=
+def abstractSurvivors (m : Module) (recordedOf : String → Array Sexp) : List String :=
   let tyErr := (List.range m.types.size).flatMap (fun i =>
     match (m.types[i]? : Option Ty) with
     | some (Ty.scalar Kind.other _) | some (Ty.vector _ Kind.other _) | some (Ty.matrix _ _ Kind.other _) => [s!"type {i} has an abstract (or unknown) scalar kind"]
     | _ => [])
-  let exErr (name : String) (es : Array Expr) : List String :=
+  let exErr (name : String) (es : Array Expr) (recorded : Array Sexp) : List String :=
     (List.range es.size).flatMap (fun i =>
       match (es[i]? : Option Expr) with
-      | some (Expr.other n) => if n.startsWith "lit:abstract" then [s!"{name}: expression {i} is an abstract literal ({n})"] else []
+      | some (Expr.other n) => if n.startsWith "lit:abstract" then [s!"{name}: expression {i} is an abstract literal ({n}), {useOf m.types es recorded i}"] else []
       | _ => [])
-  tyErr ++ exErr "global expressions" m.gexprs ++ m.functions.toList.flatMap (fun f => exErr ("fn " ++ f.name) f.exprs) ++
-    m.entries.toList.flatMap (fun e => exErr ("fn " ++ e.2.2.name) e.2.2.exprs)
+  tyErr ++ exErr "global expressions" m.gexprs #[] ++ m.functions.toList.flatMap (fun f => exErr ("fn " ++ f.name) f.exprs (recordedOf f.name)) ++
+    m.entries.toList.flatMap (fun e => exErr ("fn " ++ e.2.2.name) e.2.2.exprs (recordedOf e.2.2.name))
 
 def tyEq : Ty → Ty → Bool
   | .scalar k w, .scalar k' w' => k == k' && w == w'
@@ -265,7 +302,11 @@ def validateTyped (x : Sexp) : Option (List String) :=
       match p.2 with
       | .list (_ :: rec_) => checkFnTypes m p.1 rec_ ++ checkFnStmtTypes m p.1 rec_
       | _ => [])
-    some (IRValid.validate m ++ abstractSurvivors m ++ duplicateTypes m names ++ returnsOnAllPaths m ++ tyErrs)
+    let recordedOf (name : String) : Array Sexp :=
+      match (fns.zip fts).find? (fun p => p.1.name == name) with
+      | some (_, .list (_ :: rec_)) => rec_.toArray
+      | _ => #[]
+    some (IRValid.validate m ++ abstractSurvivors m recordedOf ++ duplicateTypes m names ++ returnsOnAllPaths m ++ tyErrs)
   | _ => none
 
 end Naga.IRTyping
